@@ -81,7 +81,8 @@ def scenario(sim):
     ledger_ok = True
     nphase = 2 + sim.choose(3)
     for ph in range(nphase):
-        shape = ("send-heavy", "receive-heavy", "ping-pong", "idle-after-crossing", "tiny-packets")[sim.choose(5)]
+        shape = ("send-heavy", "receive-heavy", "ping-pong", "idle-after-crossing", "tiny-packets",
+                 "one-way-noise")[sim.choose(6)]
         vol = (20000, 70000, 150000, 300000)[sim.choose(4)]
         shapes.append((shape, vol))
         try:
@@ -89,6 +90,15 @@ def scenario(sim):
                 ledger_ok &= transfer(sim, ch, sch, vol)
             elif shape == "receive-heavy":
                 ledger_ok &= transfer(sim, sch, ch, vol)
+            elif shape == "one-way-noise":
+                # traffic nothing answers (keep-alive style IGNOREs): the sender's own transport thread sits
+                # idle in a read while another thread crosses the threshold, and nothing inbound wakes it
+                t = (p.tc, p.ts)[sim.choose(2)]
+                size = (16, 200, 1500)[sim.choose(3)]
+                for _ in range(min(400, max(8, vol // (4 * size)))):
+                    t.send_ignore(size)
+                sim.sleep(3.0)
+                sim.probe("one_way_noise_phase")
             elif shape == "tiny-packets":
                 for _ in range(80 + vol // 1000):
                     ledger_ok &= ssh.echo_round(sim, ch, sch, 1, 1)
